@@ -579,7 +579,7 @@ type mutant struct {
 	cut   int // where to split for the segmented reader
 }
 
-var hugeLens = []uint64{0, 1, 252, 253, 65535, 65536, 1 << 31, 1 << 32, 1 << 47, 1 << 62, 1 << 63, ^uint64(0)}
+var hugeLens = []uint64{0, 1, 252, 253, 65535, 65536, 1 << 31, 1 << 32, 1 << 47, 1 << 62, 1 << 63, ^uint64(0), ^uint64(0) - 1, ^uint64(0) - 3, ^uint64(0) - 11, ^uint64(0) - 12, ^uint64(0) - 15}
 
 // all TLV headers found by walking b recursively (an element is descended into when its value tiles as TLVs)
 func allSpans(b []byte, base int, depth int, out *[]span) {
@@ -627,6 +627,14 @@ func mutants(wire []byte, maxTrunc int) []mutant {
 			out = append(out, mutant{"type", m, s.start + len(tb)})
 		}
 	}
+	// an unrecognised non-critical element announcing a boundary / huge length, inserted before each element
+	for _, sp1 := range sp {
+		for _, l := range hugeLens {
+			h := tlvHdr(900, l)
+			m := append(append(append([]byte{}, wire[:sp1.start]...), h...), wire[sp1.start:]...)
+			out = append(out, mutant{"unknown", m, sp1.start + 1})
+		}
+	}
 	// nested-length disagreement: an inner element announcing more than its parent holds
 	for i, s := range sp {
 		for _, c := range sp[i+1:] {
@@ -655,13 +663,18 @@ type c04Outcome struct {
 	alloc   uint64
 }
 
-// guard runs f under recover(), an allocation budget and a time budget
+// guard runs f under recover(), an allocation budget and a watchdog. A call that does not return within the
+// watchdog period cannot be stopped from inside the process: onSpin is called (it records the case) and the
+// process exits; the driver attributes the exit to the case and resumes after it.
+var onSpin func()
+
 func guard(inputLen int, f func()) (out string, alloc uint64, detail string) {
 	var m0, m1 runtimeMem
 	readMem(&m0)
-	t0 := time.Now()
 	out = "ok"
-	func() {
+	done := make(chan struct{})
+	go func() {
+		defer close(done)
 		defer func() {
 			if r := recover(); r != nil {
 				out = "PANIC"
@@ -671,15 +684,19 @@ func guard(inputLen int, f func()) (out string, alloc uint64, detail string) {
 		}()
 		f()
 	}()
-	el := time.Since(t0)
+	select {
+	case <-done:
+	case <-time.After(4 * time.Second):
+		if onSpin != nil {
+			onSpin()
+		}
+		os.Exit(7)
+	}
 	readMem(&m1)
 	alloc = m1.total - m0.total
 	if out == "ok" && alloc > uint64(64*inputLen)+(1<<20) {
 		out = "OVERALLOC"
 		detail = fmt.Sprint(alloc, " bytes for ", inputLen, " input bytes")
-	}
-	if out == "ok" && el > 2*time.Second {
-		out = "SPIN"
 	}
 	return
 }
@@ -724,6 +741,10 @@ func TestC04Dec(t *testing.T) {
 					rd = enc.NewBufferReader(mu.b)
 				}
 				decoded := false
+				onSpin = func() {
+					emit(w, map[string]any{"ev": "dec", "i": idx, "model": m.name, "k": sd.k, "class": mu.class, "seg": seg, "outcome": "SPIN", "decoded": false, "alloc": 0, "len": len(mu.b), "input": fmt.Sprintf("%x", trunc(mu.b, 96))})
+					w.Flush()
+				}
 				out, alloc, detail := guard(len(mu.b), func() {
 					v, err := m.parse(rd, false)
 					decoded = err == nil && v != nil
@@ -826,6 +847,10 @@ func TestC04Extra(t *testing.T) {
 						rd = enc.NewBufferReader(mu.b)
 					}
 					decoded := false
+					onSpin = func() {
+						emit(w, map[string]any{"ev": "dec", "i": idx, "model": d.name, "k": si, "class": mu.class, "seg": seg, "outcome": "SPIN", "decoded": false, "alloc": 0, "len": len(mu.b), "input": fmt.Sprintf("%x", trunc(mu.b, 96))})
+						w.Flush()
+					}
 					out, alloc, detail := guard(len(mu.b), func() {
 						v, err := d.parse(rd)
 						decoded = err == nil && v != nil
